@@ -83,10 +83,11 @@ def run(ctx):
     for fault in ("share_dict", "freeze_default"):
         ctx.tlc("GlobalState", {"MaxOps": 3, "Fault": fault, "EmitCases": False}, invariants=invs, expect_violation=fault,
                 count=False)
-    res = ctx.tlc("GlobalState", {"MaxOps": maxops, "Fault": "none", "EmitCases": True}, invariants=["EmitCase"], workers=1,
+    # (histories of 3 actions ending in a probe: 13 690; of 4 actions: 506 530 - too many to replay)
+    res = ctx.tlc("GlobalState", {"MaxOps": 3, "Fault": "none", "EmitCases": True}, invariants=["EmitCase"], workers=1,
                   count=False)
     cases = []
-    keep = 0.25 if thorough else 0.5
+    keep = 1.0 if thorough else 0.4
     for i, c in enumerate(res.cases):
         if ctx.rng.random() > keep:
             continue
@@ -120,7 +121,7 @@ def run(ctx):
     refs = fresh_reference()
     check(ctx, cases, refs)
     ctx.notes["fresh_interpreter_references"] = len(PROBES) * len(MCS)
-    ctx.rule = ("histories = %d%% seeded sample of all behaviours of spec/GlobalState.tla with %d actions ending in a probe "
+    ctx.rule = ("histories = %d%% seeded sample of all behaviours of spec/GlobalState.tla with 3 actions (model checked up to %d) ending in a probe "
                 "(MasterConfig set / restored, cache cleared / disabled / pre-warmed, other descriptions parsed, returned dicts "
                 "and lists mutated through 6 conversion paths) + random histories of 7..15 actions; reference = each of 10 probes "
                 "x 4 MasterConfig values in its own fresh interpreter; non-trivial = distinct history" % (int(keep * 100), maxops))
